@@ -178,6 +178,11 @@ def prove_eq_linear(hyps_eq, goal_pairs, unknown_prefix='G', timeout=60):
 class SO3:
     _cache = {}
 
+    def new_conv(self):
+        c = Conv(normal_form=self.normal_form)
+        c.eager_syms = set(self.gens)
+        return c
+
     def __init__(self, name='q'):
         self.name = name
         self.Qt = [[tm.var('%s_%d_%d' % (name, i, j)) for j in range(3)] for i in range(3)]
@@ -222,12 +227,13 @@ class SO3:
         return sp.cancel(self.reduce_poly(num) / self.reduce_poly(den))
 
 
-def prove_eq_mod(so3, goal_pairs, timeout=120):
+def prove_eq_mod(so3, goal_pairs, timeout=120, conv=None):
     """equalities modulo the SO(3) ideal; applications of opaque functions are identified when their
     arguments have the same normal form"""
     t0 = time.time()
-    conv = Conv(normal_form=so3.normal_form)
-    conv.eager_syms = set(so3.gens)
+    if conv is None:
+        conv = Conv(normal_form=so3.normal_form)
+        conv.eager_syms = set(so3.gens)
     old = signal.signal(signal.SIGALRM, _alarm)
     signal.alarm(int(timeout))
     try:
